@@ -31,6 +31,20 @@ TREE_FILES = {
     'root/../other/secret.txt': DECOY,
     'other/a.txt': DECOY,
     'work/a.txt': DECOY,
+    # decoy directories that differ from the root (or from one of its ancestors) only in letter case: on a
+    # case-sensitive file system they are other directories
+    'Root/secret.txt': DECOY,
+    'ROOT/a.txt': DECOY,
+    'rOOt/index.html': DECOY,
+    'base/Public/index.txt': b'inside base/Public',
+    'base/Public/sub/x.txt': b'inside base/Public/sub',
+    'base/public/secret.txt': DECOY,
+    'base/public/index.txt': DECOY,
+    'base/PUBLIC/secret.txt': DECOY,
+    'base/PUBLIc/index.txt': DECOY,
+    'Base/Public/secret.txt': DECOY,
+    'Base/Public/index.txt': DECOY,
+    'BASE/public/secret.txt': DECOY,
     # a second tree of the same shape: the same relative root strings mean other directories from here
     'alt/secret_above.txt': b'ALT above',
     'alt/root/index.html': b'ALT index',
@@ -54,12 +68,15 @@ ROOTS = [
     ('', '{T}/root2'), ('', 'root2/'), ('', '{T}/root/sub'), ('root', 'sub'), ('', '{T}'), ('', '{T}/'),
     ('alt', 'root'), ('alt', 'root/'), ('alt/root', '.'), ('alt/root/sub', '..'), ('alt/work', '../root'), ('alt', '../root'),
     ('alt', '{T}/root'), ('', '{T}/alt/root'),
+    ('', '{T}/base/Public'), ('', '{T}/base/Public/'), ('base', 'Public'), ('base', './Public/'), ('base/Public', '.'),
+    ('base/public', '../Public'), ('Base', '../base/Public'), ('', 'base/Public'), ('', '{T}/base/public'), ('', '{T}/Base/Public'),
     ('', '{T}/missing'), ('', 'missing/'), ('', '/'), ('', '//'), ('', '{T}/root/a.txt'), ('root', 'a.txt/'),
 ]
 
-NAMES = ['a.txt', '\xe9 \u20ac.txt', 'index.html', 'sub', 'b.txt', 'deep', 'c.txt', 'noaccess.txt', 'dir.d', 'missing.txt', 'we ird.txt',
+NAMES = ['index.txt', 'x.txt', 'a.txt', '\xe9 \u20ac.txt', 'index.html', 'sub', 'b.txt', 'deep', 'c.txt', 'noaccess.txt', 'dir.d', 'missing.txt', 'we ird.txt',
          'bs\\name.txt', '..hidden', 'a..b', 'secret.txt', 'secret_above.txt', 'inner.txt', 'empty']
-SIBLINGS = ['root', 'root2', 'rootx', 'root.bak', 'other', 'work']
+SIBLINGS = ['root', 'root2', 'rootx', 'root.bak', 'other', 'work', 'Root', 'ROOT', 'rOOt', 'public', 'PUBLIC', 'Public', 'PUBLIc',
+            'base', 'Base', 'BASE']
 SEGS = NAMES + SIBLINGS + ['.', '..', '..', '..', '', '...', ' ', '.. ', ' ..']
 SEPS = ['/', '/', '/', '\\', '//', '\\\\', '/\\', '\\/', '///']
 ABS_PREFIXES = ['/', '//', '///', '{T}/', '{T}/root/', '{T}/root2/', '{T}//root2/', '/etc/', '\\', '\\/', '/\\',
@@ -77,6 +94,10 @@ NAMED = [
     '{T}/root/../root2/secret.txt', '/etc/passwd', '//etc/passwd', '../../../../../../../../etc/passwd',
     '....//....//etc/passwd', '..hidden', 'a..b', '..hidden/..', 'root2/inner.txt', 'root2/../../root2/secret.txt',
     '2/secret.txt', '../root2', '..//root2//secret.txt', './../root2/secret.txt', 'sub/..\\../root2/secret.txt',
+    '../Root/secret.txt', '../ROOT/a.txt', '../rOOt/index.html', '{T}/Root/secret.txt', 'index.txt', 'sub/x.txt',
+    '../public/secret.txt', '../public/index.txt', '../PUBLIC/secret.txt', '../PUBLIc/index.txt', '../Public/index.txt',
+    '../../Base/Public/secret.txt', '../../Base/Public/index.txt', '../../BASE/public/secret.txt', '{T}/base/public/secret.txt',
+    '{T}/Base/Public/index.txt', '{T}/base/Public/index.txt', '..\\public\\secret.txt', 'sub/../../public/secret.txt',
     'we ird.txt', 'bs\\name.txt', '\xe9 \u20ac.txt', 'sub/../\xe9 \u20ac.txt', 'a.txt\x00', 'a\x00.txt', '../root2/secret.txt\x00',
 ]
 
@@ -126,10 +147,10 @@ SAME_ROOT_STRING = [
     ('../root', ['work', 'alt/work', 'root2', 'alt', 'alt/root2']), ('sub', ['root', 'alt/root']),
     ('../root2', ['root', 'alt/root', 'work']), ('../..', ['root/sub/deep', 'alt/root/sub/deep', 'work/nested']),
 ]
-SEQ_NAMES = ['a.txt', 'index.html', 'sub/b.txt', 'b.txt', 'secret.txt', 'deep/c.txt', '../a.txt', '../sub/b.txt',
+SEQ_NAMES = ['index.txt', 'x.txt', 'a.txt', 'index.html', 'sub/b.txt', 'b.txt', 'secret.txt', 'deep/c.txt', '../a.txt', '../sub/b.txt',
              '../root2/secret.txt', '../root2/a.txt', '../secret_above.txt', '../root/a.txt', 'root/a.txt', 'root2/secret.txt',
              'sub/../a.txt', '../b.txt', 'missing.txt', 'noaccess.txt']
-SEQ_ROOTS = ['{T}/root', '{T}/root/', '{T}/root/sub', '{T}/root/sub/deep', '{T}/root2', '{T}/rootx', '{T}/alt/root', '{T}/alt/root2',
+SEQ_ROOTS = ['{T}/base/Public', '{T}/base/public', '{T}/Base/Public', '{T}/Root', '{T}/root', '{T}/root/', '{T}/root/sub', '{T}/root/sub/deep', '{T}/root2', '{T}/rootx', '{T}/alt/root', '{T}/alt/root2',
              '{T}/alt', '{T}', '{T}/root/root2', '{T}/work']
 
 
@@ -238,8 +259,8 @@ class C16(Check):
     anchors = ['ombott/static_stream.py']
     rule = ('os.path.normpath/join/abspath/strip against the model on generated paths and exhaustively over the '
             'alphabet {a . /} (length <= 9 quick / 10 thorough) and over segment lists from {a . .. ""} with 0-3 '
-            'leading slashes; static_file on a real temporary tree (decoys above and beside the root, siblings root2 '
-            'rootx root.bak) for 42 root spellings (absolute/relative, trailing separators, dot segments, other '
+            'leading slashes; static_file on a real temporary tree (decoys above and beside the root, siblings root2 rootx root.bak, directories that differ from the root or an ancestor only in letter case; '
+            'rootx root.bak) for 52 root spellings (absolute/relative, trailing separators, dot segments, other '
             'working directories) x file names built from names, ".", "..", "", sibling names, absolute prefixes and '
             'separators / \\ repeated; GET/HEAD, If-Modified-Since; call SEQUENCES on one process (same root string under '
             'other working directories, same name under sub-/sibling roots, same file through several roots); compared: status, every path handed to open(), '
@@ -420,7 +441,7 @@ class C16(Check):
         for q in rec.opened:
             if not self._inside(q, root_abs):
                 return 'opened-outside-root', f'open({q!r}) for name {fn!r} under root {root!r} (= {root_abs!r})'
-        if body is not None and body.startswith(b'DECOY') and root_abs == self.top + '/root':
+        if body is not None and body.startswith(b'DECOY') and root_abs in (self.top + '/root', self.top + '/base/Public'):
             return 'decoy-content', f'name {fn!r} under root {root!r} delivered a file from outside the root'
         if body is not None and len(rec.opened) == 1 and os.path.isfile(rec.opened[0]):
             with open(rec.opened[0], 'rb') as f:
